@@ -230,6 +230,8 @@ async def _read_all(chunks, lim, timeout, captured):
         end = 'overrun'
     except (ValueError, AssertionError) as e:      # incl. UnicodeDecodeError
         end = 'bad'
+    except Exception as e:                         # e.g. unpickling a damaged payload
+        end = 'exc-' + type(e).__name__
     finally:
         ft.cancel()
     return got, end
@@ -266,7 +268,11 @@ def run_case(case):
                 edges.append(len(w.buf))
                 edges.append(len(w.buf) - len(sent_raw[-1][0]))     # end of that record's header
 
-        asyncio.run(write_all())
+        write_exc = None
+        try:
+            asyncio.run(write_all())
+        except Exception as e:
+            write_exc = repr(e)
         wire = bytes(w.buf)
         feed = wire
         if case['mode'] == 'trunc' and wire:
@@ -291,6 +297,8 @@ def run_case(case):
         S.decode = _orig_decode
 
     mon = []
+    if write_exc:
+        mon.append(dict(prop='C18', rule='write-raised', detail=f'write_record raised {write_exc}'))
     got0, end0 = results[0]
     canon = [(g[0], g[1], g[2]) for g in got0]
     for k, (g, e) in enumerate(results[1:], 1):
@@ -317,10 +325,10 @@ def run_case(case):
     res = dict(monitors=mon, end=end0, nread=len(got0), nchunkings=len(results), wire_len=len(wire),
                events=[hashlib.sha1(feed).hexdigest(), end0, len(got0)])
     # material for the model comparison (kept compact: hex strings)
-    res['recs_hex'] = [f"{_hex(r['rid'].encode())}:{sr[1]}:{_hex(sr[0])}" for r, sr in zip(case['recs'], sent_raw)]
+    res['recs_hex'] = [f"{_hex(r['rid'].encode())}:{r['enc']}:{_hex(sr[0])}" for r, sr in zip(case['recs'], sent_raw)]
     res['wire_hex'] = _hex(wire)
     res['feed_hex'] = _hex(feed)
-    res['got_hex'] = [f"{_hex(g[0].encode())}:{g[1]}:{_hex(g[2])}" for g in got0]
+    res['got_hex'] = [f"{_hex(str(g[0]).encode())}:{g[1]}:{_hex(g[2] or b'')}" for g in got0]
     res['write_calls'] = w.calls
     return res
 
